@@ -153,7 +153,8 @@ def step (s : St) : Act → Option (St × List Ev)
     | .data m ok :: rest => some ({ s with body := rest, pc := 2, holding := m, holdingOK := ok, consumed := s.consumed + 1 }, [])
     | .trailer c true :: rest =>
       some (complete { s with body := rest, tr := some c, sawTrailerOK := s.sawTrailerOK || c == 0 }, [])
-    | .trailer _ false :: rest => some (complete { s with body := rest, rErr := some .plainErr }, [])
+    -- an undecodable trailer is the goroutine's local error like any other (it never replaces an error already recorded)
+    | .trailer _ false :: rest => some (complete { s with body := rest, rdErr := some .plainErr }, [])
     | .bad :: rest => some (complete { s with body := rest, rdErr := some .plainErr }, [])
     | [] =>
       -- the body ended before a trailer frame: a truncated stream (4d2ee3d)
